@@ -26,3 +26,27 @@ check('C20', 'contracts', 'exploration', 'runtime monitor: scripted clock + refe
       'Random call/query/clear histories on the real kfac.tracing with the clock replaced by a scripted integer clock; '
       'every get_trace result, return value and exception is compared with an exact reference. Sampling, not proof: held on the histories observed.',
       'Trusts that kfac.tracing reads time only via its module attribute; sync barriers are a counting stub.', 'DESIGN.md §3 C20')
+
+check('C19', 'contracts', 'exploration', 'runtime monitor: executable scheduler model stepped next to the real scheduler, exact float equality',
+      'All 64 subsets of scheduled parameters (exhaustive) with random factor functions and call sequences on the real preconditioner; the lambdas\' '
+      'arguments and every hyper-parameter value are compared exactly with an executable model after each call; exp_decay schedule checked on cap x k grids.',
+      'Histories are sampled (<=60 calls); hyper-parameters read through public properties.', 'DESIGN.md §3 C19')
+check('C17', 'contracts', 'exploration', 'runtime contract on the real static method: post-conditions + greedy replay with tie backtracking',
+      'Exhaustive small domain plus random large cases through the real greedy_assignment; completeness, group confinement, co-location, balance bounds, '
+      'existence of a decreasing-cost least-loaded replay, purity, and equality of results across PYTHONHASHSEED values.',
+      'Tie-breaks are free; replay search capped at 20000 nodes per case (capped cases counted, other clauses still decide).', 'DESIGN.md §3 C17')
+check('C06', 'contracts', 'exploration', 'runtime relational monitor over one real KAISAAssignment per rank (cross-rank view comparison)',
+      'Exhaustive over world sizes (quick <=64, thorough <=256 plus 98/147/196), every divisor k, colocate on/off and five cost families: all public queries of '
+      'all rank views are compared with relations taken from the statement; construction also through KFACPreconditioner (float/enum); equal digests across hash seeds.',
+      'For W>16 only ranks {0,1,W//2,W-1,random} are instantiated; group handles are a recorder.', 'DESIGN.md §3 C06')
+check('C14', 'simdist', 'exploration', 'exact round-trip oracle for every n up to a bound + differential symmetric-vs-dense communication on the simulated backend',
+      'Every n<=256 (thorough 768) x 4 dtypes x 4 contents x 3 layouts round-trips exactly; on simulated worlds symmetric allreduce/broadcast/bucketed equal dense bit for bit; '
+      'invalid shapes raise NonSquareTensorError with zero backend operations.',
+      'simdist stands in for the c10d backend; size-1 groups short-circuit before validation (recorded, not judged).', 'DESIGN.md §3 C14')
+check('C15', 'refmodel', 'exploration', 'differential oracle: autograd gradients and F.unfold vs the helpers, float64 reference moments',
+      'Generated conv/linear geometries: combined gradient equals sum g (x) [patch,1] in unfold column order, factors equal reference moments in the same coordinates, '
+      'set/get identities, advertised shapes; thorough tier walks the full kernel x stride x padding grid.',
+      'torch.nn.functional.unfold is the reference unfolding; dilation 1, groups 1.', 'DESIGN.md §3 C15')
+check('C16', 'contracts', 'exploration', 'independent module-tree walk compared with what the real registration did (names, identities, hook counts)',
+      'Generated module trees x skip-pattern lists: the set and names of registered layers, hook counts on every module and parameter values are compared with an independent walk; GPT-NeoX variant by class name.',
+      'Leaf = module without children; hook bookkeeping read from torch hook dictionaries.', 'DESIGN.md §3 C16')
